@@ -11,6 +11,7 @@ import WB.Lemmas.C13Step
 import WB.Lemmas.C13Sea
 import WB.Lemmas.C13CumDOS
 import WB.Lemmas.C13FD
+import WB.Lemmas.C13Glue
 
 namespace WB.C13
 
@@ -159,6 +160,71 @@ theorem fder3_is_third_central_difference (Ef : Nat → Rat) (n : Nat) (hn : 0 <
 theorem kresolved_mean (fder : Nat) (Ef : Nat → Rat) (n : Nat) (ks : List (List Group)) (j : Nat) :
     ((ks.map (fun g => resolved fder Ef n g j)).sum) / (ks.length : Rat) = unresolved fder Ef n ks j :=
   kresolved_mean_aux fder Ef n ks j
+
+/-! ## glue: ties, scalars, hole-like flag, value assembly, shared Data_K, non-uniform grids -/
+
+/-- T1 (ties).  In exact arithmetic a state lying exactly on a Fermi level, `E = EFmin + j·d`, has bin index exactly `j`:
+    it is counted at that Fermi level and all later ones (`ceil` ⇒ the convention is `E ≤ Ef_j`).  (In floating point
+    with a non-dyadic spacing `fl((E - EFmin)/d)` may land just above `j`, which moves the state to bin `j+1`;
+    that rounding is outside the model, see TRUSTED.) -/
+theorem tie_is_counted (efmin d : Rat) (hd : 0 < d) (j : Nat) :
+    iEf efmin d (efmin + (j : Rat) * d) = (j : Int) :=
+  iEf_tie efmin d hd j
+
+/-- T5 (scalars).  The reported number is `constant_factor_eff / (nk · cell_volume)` times the stencil of the k-summed
+    accumulation — any change of the normalisation (another cell measure, a missing `1/nk`) changes this formula. -/
+theorem result_normalisation (cf vol : Rat) (h u : Bool) (fder : Nat) (Ef : Nat → Rat) (n : Nat)
+    (ks : List (List Group)) (j : Nat) :
+    fullUnresolved cf vol h u fder Ef n ks j =
+      effFactor cf h fder u / ((ks.length : Rat) * vol) *
+        stencil fder (dEF Ef n)
+          (sumK (ks.map (fun g => accumulate (EFmin Ef n fder) (EFmax Ef n fder) (dEF Ef n) g))) j :=
+  fullUnresolved_formula cf vol h u fder Ef n ks j
+
+/-- T5 (`_DOS` classes).  CumDOS / DOS multiply by `cell_volume` again, so they do not depend on it. -/
+theorem dos_class_volume_free (vol : Rat) (hv : vol ≠ 0) (fder : Nat) (Ef : Nat → Rat) (n : Nat)
+    (ks : List (List Group)) (j : Nat) :
+    dosClass vol fder Ef n ks j = unresolved fder Ef n ks j := by
+  unfold dosClass fullUnresolved effFactor
+  simp only [Bool.false_and, Bool.false_eq_true, if_false, if_true, mul_one]
+  field_simp
+
+/-- T5 (hole-like, no tetrahedra).  `hole_like=True` changes a Fermi-sea calculator only by the overall sign
+    (`constant_factor *= -1`): the sum still runs over the states BELOW the Fermi level; for `fder ≥ 1` the flag has no
+    effect.  (With `tetra=True` the same flag selects the states ABOVE the level — C14, `der = -1`.) -/
+theorem hole_like_is_sign_flip (cf vol : Rat) (u : Bool) (Ef : Nat → Rat) (n : Nat) (ks : List (List Group)) (j : Nat) :
+    fullUnresolved cf vol true u 0 Ef n ks j = - fullUnresolved cf vol false u 0 Ef n ks j := by
+  unfold fullUnresolved
+  rw [effFactor_hole]; ring
+
+theorem hole_like_ignored_for_surface (cf vol : Rat) (u : Bool) (fder : Nat) (hf : 1 ≤ fder) (Ef : Nat → Rat) (n : Nat)
+    (ks : List (List Group)) (j : Nat) :
+    fullUnresolved cf vol true u fder Ef n ks j = fullUnresolved cf vol false u fder Ef n ks j := by
+  unfold fullUnresolved
+  rw [effFactor_hole_pos cf u fder hf]
+
+/-- T6 (value assembly).  For a formula whose trace is additive over adjacent band ranges the two branches of
+    `__call__` (`formula.additive` True / False) assign the same value to every group. -/
+theorem assembly_agree (tr : Nat → Nat → Rat)
+    (hadd : ∀ a b c, a ≤ b → b ≤ c → tr a b + tr b c = tr a c) (ab : Nat × Nat) (hab : ab.1 ≤ ab.2) :
+    assemble false tr ab = assemble true tr ab :=
+  assemble_agree_aux tr hadd ab hab
+
+/-- T7 (shared Data_K).  The group dictionary is a function of `(energies, emin, emax, thresh, Kramers, sea,
+    select_bands)` and the `sea` flag matters: for the same window a sea calculator needs the lumped group that a
+    surface calculator must not get.  Any memoisation across calculators sharing one Data_K must key on all of them. -/
+theorem sea_flag_matters :
+    groupsIK (ofList [-1, 1]) (1 / 100) 2 false 0 2 true none ≠ groupsIK (ofList [-1, 1]) (1 / 100) 2 false 0 2 false none := by
+  decide +kernel
+
+/-- T8 (uniform grids are necessary).  On the non-uniform grid 0, 1, 5 the code takes `dEF = 1`, so a band at
+    `E = 3 ≤ 5` gets bin index 3, beyond the array: the Fermi-sea result at `Ef = 5` is 0 although the state is below
+    it.  The hypothesis `Uniform` of the theorems above cannot be dropped (the property quantifies over uniform
+    grids only). -/
+theorem nonuniform_grid_miscounts :
+    resolved 0 (ofList [0, 1, 5]) 3 (calcK 0 (ofList [0, 1, 5]) 3 (ofList [3]) (1 / 100) 1 false none sizeOf) 2 = 0 ∧
+    stepSum (groupsWithValues (ofList [3]) (1 / 100) 1 false 0 5 true none sizeOf) 5 = 1 := by
+  decide +kernel
 
 /-! ## non-vacuity -/
 
